@@ -108,8 +108,56 @@ func (p *pool) hex(s string) string {
 	}
 	n := fmt.Sprintf("s%d", len(p.binds))
 	p.names[s] = n
-	p.binds = append(p.binds, "let "+n+" := "+core.Hex(s)+" in")
+	p.binds = append(p.binds, "let "+n+" := "+coqBytes(s)+" in")
 	return n
+}
+
+// coqBytes: the Coq term for a byte string.  Short strings are one hex literal.  Long ones (source lines of
+// 4 KiB .. 1 MiB) cannot be: coqc overflows its stack on a string literal of some 10^4 characters and spends
+// ~0.1 ms per literal byte.  They are sent loss-free as pieces joined by ++, the longest periodic stretch (a run of
+// one unit of 1-12 bytes, which is what the long-line vocabulary is made of) as `rp <count> <unit>` (Corr/C01.v).
+func coqBytes(s string) string {
+	const chunk = 3000
+	if len(s) <= chunk {
+		return core.Hex(s)
+	}
+	bestStart, bestLen, bestP := longestRun(s)
+	if bestLen >= 1024 {
+		var parts []string
+		if bestStart > 0 {
+			parts = append(parts, coqBytes(s[:bestStart]))
+		}
+		parts = append(parts, fmt.Sprintf("rp %d%%N %s", bestLen/bestP, core.Hex(s[bestStart:bestStart+bestP])))
+		if rest := s[bestStart+bestLen:]; rest != "" {
+			parts = append(parts, coqBytes(rest))
+		}
+		return "(" + strings.Join(parts, " ++ ") + ")"
+	}
+	var parts []string
+	for len(s) > 0 {
+		k := min(len(s), chunk)
+		parts = append(parts, core.Hex(s[:k]))
+		s = s[k:]
+	}
+	return "(" + strings.Join(parts, " ++ ") + ")"
+}
+
+// longestRun: the longest stretch of s that is a whole number of repetitions of one unit of 1-12 bytes
+func longestRun(s string) (start, length, period int) {
+	for per := 1; per <= 12; per++ {
+		run := 0
+		for i := per; i <= len(s); i++ {
+			if i < len(s) && s[i] == s[i-per] {
+				run++
+				continue
+			}
+			if l := (run + per) / per * per; run > 0 && l > length {
+				start, length, period = i-run-per, l, per
+			}
+			run = 0
+		}
+	}
+	return
 }
 
 func (p *pool) wrap(term string) string {
@@ -190,6 +238,7 @@ func scriptOf(g *Gen, ncalls int) []Snip {
 }
 
 type genReport struct {
+	Pkg     string      `json:"pkg"`
 	Name    string      `json:"name"`
 	Calls   int         `json:"calls"`
 	Imports [][2]string `json:"imports"`
@@ -277,23 +326,43 @@ func (prop) Run(raw json.RawMessage, scratch string) core.Result {
 	// agree that this run does not complete (it does when the body is unparseable; see notes/C01.md for the
 	// //line-directive case in which the diagnostic print-out panics instead of returning the parser's error).
 	execErr := out.Err != "" || out.Panic != ""
+	// "the module's language version" is what its go.mod says when Execute runs; the go command rewrites the go
+	// directive of the main module when a dependency declares a newer one
+	for k, gv := range out.GoVers {
+		if gv != "" && gv != in.view(k).GoVer {
+			res.Notes = append(res.Notes, fmt.Sprintf("go directive of module %d is %s after loading (input said %s)", k+1, gv, in.view(k).GoVer))
+			res.Tags = append(res.Tags, "go_directive_rewritten_by_go_command")
+			if k == 0 {
+				in.GoVer = gv
+			} else {
+				m := *in.Mod2
+				m.GoVer = gv
+				in.Mod2 = &m
+			}
+		}
+	}
 	if out.Panic != "" {
 		res.Notes = append(res.Notes, "Execute panicked instead of returning: "+firstLine(out.Panic))
 		res.Tags = append(res.Tags, "panic_instead_of_error")
 	}
 	pl := &pool{names: map[string]string{}}
-	var gterms []string
+	gterms := make([][]string, in.npkgs())
 	anyFile, anyImports, nDecl, buildClass, maxRounds := false, false, 0, false, 0
 	for i := range out.Gens {
 		go_ := &out.Gens[i]
-		g := &in.Gens[i]
+		g := &in.Gens[i%len(in.Gens)]
+		v := in.view(go_.Pkg) // module path, go directive and package name of the package this file belongs to
+		label := g.Name
+		if in.Mod2 != nil {
+			label = v.pkgPath() + ": " + g.Name
+		}
 		script := scriptOf(g, go_.Calls)
-		rep := genReport{Name: g.Name, Calls: go_.Calls, Imports: go_.Imports, HasFile: go_.HasFile, File: string(go_.File)}
+		rep := genReport{Pkg: v.pkgPath(), Name: g.Name, Calls: go_.Calls, Imports: go_.Imports, HasFile: go_.HasFile, File: string(go_.File)}
 		var sterms []string
 		var frags [][]byte
 		var rendered []byte
 		if len(script) != len(go_.Renders) {
-			res.Notes = append(res.Notes, fmt.Sprintf("generator %s: %d snippets scripted for %d calls, %d Render calls recorded", g.Name, len(script), go_.Calls, len(go_.Renders)))
+			res.Notes = append(res.Notes, fmt.Sprintf("generator %s: %d snippets scripted for %d calls, %d Render calls recorded", label, len(script), go_.Calls, len(go_.Renders)))
 		}
 		for k, s := range script {
 			var rec [][]byte
@@ -310,8 +379,8 @@ func (prop) Run(raw json.RawMessage, scratch string) core.Result {
 		if hasBuild {
 			buildClass = true
 		}
-		pre := assembleRef(in.PkgName, g.Name, go_.Imports, body)
-		f1, ok1 := refFmt1(pre, &in)
+		pre := assembleRef(v.PkgName, g.Name, go_.Imports, body)
+		f1, ok1 := refFmt1(pre, v)
 		// the reference second stage, step by step until it repeats (at most 7 steps): the model's table for fmt2
 		var chain []string
 		var last []byte
@@ -319,7 +388,7 @@ func (prop) Run(raw json.RawMessage, scratch string) core.Result {
 		if ok1 {
 			cur := f1
 			for step := 0; step < 7; step++ {
-				nx, ok := refFmt2(cur, &in)
+				nx, ok := refFmt2(cur, v)
 				chain = append(chain, "("+pl.hex(string(cur))+", "+pl.optBytes(ok, nx)+")")
 				if !ok {
 					break
@@ -339,32 +408,32 @@ func (prop) Run(raw json.RawMessage, scratch string) core.Result {
 		rep.RefSame = go_.HasFile && ok2 && bytes.Equal(last, go_.File)
 		var o oracle
 		if go_.HasFile {
-			o = observe(go_.File, assembleRef(in.PkgName, g.Name, go_.Imports, rendered), len(go_.Imports), &in)
+			o = observe(go_.File, assembleRef(v.PkgName, g.Name, go_.Imports, rendered), len(go_.Imports), v)
 			rep.Oracle = &o
 			anyFile = true
 			nDecl += len(o.Decls)
 			if !execErr {
 				if !o.Parses {
-					res.GoViolations = append(res.GoViolations, g.Name+": the written file does not parse")
+					res.GoViolations = append(res.GoViolations, label+": the written file does not parse")
 				} else {
-					if o.Pkg != in.PkgName {
-						res.GoViolations = append(res.GoViolations, g.Name+": package clause is "+o.Pkg)
+					if o.Pkg != v.PkgName {
+						res.GoViolations = append(res.GoViolations, label+": package clause is "+o.Pkg)
 					}
 					if !o.LeadComment || !strings.Contains(o.Comment0, "gengo:"+g.Name) {
-						res.GoViolations = append(res.GoViolations, g.Name+headerViolation)
+						res.GoViolations = append(res.GoViolations, label+headerViolation)
 					}
 					if !o.ImportOK {
-						res.GoViolations = append(res.GoViolations, g.Name+": references were rendered but the file has no import declaration first")
+						res.GoViolations = append(res.GoViolations, label+": references were rendered but the file has no import declaration first")
 					}
 					if !o.WantOK || !eqStrs(o.Decls, o.Want) {
-						res.GoViolations = append(res.GoViolations, g.Name+": declarations differ from the rendered ones by more than formatting")
+						res.GoViolations = append(res.GoViolations, label+": declarations differ from the rendered ones by more than formatting")
 					}
 				}
 				if !o.GofmtOK || !o.GofmtSame {
-					res.GoViolations = append(res.GoViolations, g.Name+": not a fixed point of gofmt")
+					res.GoViolations = append(res.GoViolations, label+": not a fixed point of gofmt")
 				}
 				if !o.GofumptOK || !o.GofumptSame {
-					res.GoViolations = append(res.GoViolations, g.Name+": not a fixed point of gofumpt (go"+in.GoVer+", "+in.ModPath+")")
+					res.GoViolations = append(res.GoViolations, label+": not a fixed point of gofumpt (go"+v.GoVer+", "+v.ModPath+")")
 				}
 			}
 		}
@@ -379,7 +448,7 @@ func (prop) Run(raw json.RawMessage, scratch string) core.Result {
 		if o.WantOK {
 			wantTerm = "(Some " + pl.strList(o.Want) + ")"
 		}
-		gterms = append(gterms, fmt.Sprintf("mk_gen %s %s %s %s %s %s %s %s %s %s %s %s %s %s %s %s",
+		gterms[go_.Pkg] = append(gterms[go_.Pkg], fmt.Sprintf("mk_gen %s %s %s %s %s %s %s %s %s %s %s %s %s %s %s %s",
 			core.Hex(g.Name), core.CoqList(sterms), core.CoqList(imps), pl.bytesList(frags), core.CoqBool(hasBuild), pl.hex(string(pre)),
 			pl.optBytes(ok1, f1), core.CoqList(chain), core.Hex(in.Base+"."+g.Name+".go"), pl.optBytes(go_.HasFile, go_.File),
 			core.CoqBool(o.Parses), core.Hex(o.Pkg), pl.strList(o.Decls), wantTerm,
@@ -390,7 +459,12 @@ func (prop) Run(raw json.RawMessage, scratch string) core.Result {
 	if execErr && out.Panic == "" && out.ErrKind != "parse" {
 		res.Tags = append(res.Tags, "error_not_from_parser")
 	}
-	res.Coq = pl.wrap(fmt.Sprintf("mk_case %s %s %s %s", core.Hex(in.PkgName), core.Hex(in.Base), core.CoqBool(execErr), core.CoqList(wrapParens(gterms))))
+	// one package-case per target package (two when the run spans a second module), all of the same Execute call
+	var pterms []string
+	for k := range gterms {
+		pterms = append(pterms, fmt.Sprintf("mk_case %s %s %s %s", core.Hex(in.view(k).PkgName), core.Hex(in.Base), core.CoqBool(execErr), core.CoqList(wrapParens(gterms[k]))))
+	}
+	res.Coq = pl.wrap(core.CoqList(pterms))
 
 	if buildClass {
 		// the known finding explains exactly one failure (the file opens with the build constraint, not with the
@@ -408,6 +482,15 @@ func (prop) Run(raw json.RawMessage, scratch string) core.Result {
 	}
 	// distribution
 	res.Nontrivial = anyFile && nDecl >= 1
+	if in.Mod2 != nil {
+		res.Tags = append(res.Tags, "two_modules", "go2="+in.Mod2.GoVer)
+		if !strings.Contains(strings.SplitN(in.Mod2.ModPath, "/", 2)[0], ".") || !strings.Contains(strings.SplitN(in.ModPath, "/", 2)[0], ".") {
+			res.Tags = append(res.Tags, "two_modules:dotless_module_path")
+		}
+		if in.Mod2.GoVer != in.GoVer {
+			res.Tags = append(res.Tags, "two_modules:different_go_directive")
+		}
+	}
 	res.Tags = append(res.Tags, "go="+in.GoVer, fmt.Sprintf("gens=%d", len(in.Gens)), fmt.Sprintf("types=%d", len(in.Types)))
 	if execErr {
 		res.Tags = append(res.Tags, "execute_error(malformed body)")
@@ -467,6 +550,20 @@ func kindTags(in *Input) []string {
 		seen["snip:"+s.K] = true
 		if bytes.Contains(s.S, []byte("\r\n")) {
 			seen["crlf"] = true
+		}
+		if len(s.S) >= 4096 {
+			longest := 0
+			for _, l := range bytes.Split(s.S, []byte("\n")) {
+				longest = max(longest, len(l))
+			}
+			switch {
+			case longest >= 1<<20:
+				seen["source_line>=1MiB"] = true
+			case longest >= 65535:
+				seen["source_line>=64KiB"] = true
+			case longest >= 4095:
+				seen["source_line>=4KiB"] = true
+			}
 		}
 		for _, x := range s.Sub {
 			walk(x)
